@@ -112,6 +112,24 @@ func runConnDrop(c *core.Ctx) {
 					}
 					k++
 					n++
+					// variables the error is copied into (`ret = err`, `err2 := ret`): a test of any of them on the failure
+					// path is a test of this error
+					errSet := map[types.Object]bool{errObj: true}
+					for changed := true; changed; {
+						changed = false
+						ast.Inspect(b.body, func(m ast.Node) bool {
+							if as, ok := m.(*ast.AssignStmt); ok && len(as.Lhs) == len(as.Rhs) {
+								for i := range as.Lhs {
+									l, r := an.ObjOf(info, as.Lhs[i]), an.ObjOf(info, as.Rhs[i])
+									if l != nil && r != nil && errSet[r] && !errSet[l] {
+										errSet[l] = true
+										changed = true
+									}
+								}
+							}
+							return true
+						})
+					}
 					key := fmt.Sprintf("%s:wire-op#%d(%s)-failure-drops-connection", fn.Name(), k, types.ExprString(w.(*ast.CallExpr).Fun))
 					bad := ""
 					tested := false
@@ -151,7 +169,7 @@ func runConnDrop(c *core.Ctx) {
 								return true
 							}
 							// other tests of the same error variable: the error is still set on this path
-							if ok, nn := nilTestOn(g, info, cc, func(x ast.Expr) bool { return an.ObjOf(info, x) == errObj }); ok {
+							if ok, nn := nilTestOn(g, info, cc, func(x ast.Expr) bool { return errSet[an.ObjOf(info, x)] }); ok {
 								return (i == 0) == nn
 							}
 							if ok, nn := nilTestOn(g, info, cc, func(x ast.Expr) bool { return an.SelectedField(info, x) == conn }); ok {
